@@ -913,15 +913,15 @@ def Optimize(
       can_do_lookup=can_do_lookup,
   )
   node = _OptimizeOnce(node, **kwargs)
-  if lossy or remove_mutable:
-    # Replacing unions by common superclasses, or absorbing mutated parameter
-    # types, creates new unions that the earlier passes could simplify further
-    # (e.g. into more common superclasses), so repeat until nothing changes.
-    while True:
-      optimized = _OptimizeOnce(node, **kwargs)
-      if _Same(optimized, node):
-        break
-      node = optimized
+  # A later pass can enable an earlier one: simplifying a union with the class
+  # hierarchy can make two signatures identical up to their return type,
+  # replacing unions by common superclasses or absorbing mutated parameter
+  # types creates new unions, etc. So repeat until nothing changes.
+  while True:
+    optimized = _OptimizeOnce(node, **kwargs)
+    if _Same(optimized, node):
+      break
+    node = optimized
   return node
 
 
